@@ -585,8 +585,21 @@ def execute(run, props):
                     enc_err = None
                 except UnicodeError as e:
                     expect, enc_err = None, e
+                # "writes exactly the text": the statement fixes neither the encoding nor the newline policy of a
+                # path target, so besides what builtins.open(path, "w") does today (locale encoding, platform
+                # newline) the untranslated text and UTF-8 (parse_file's documented default) are accepted too
+                accept = set()
+                for e_ in (cfg["locale"], "utf-8"):
+                    for nl_ in (cfg["platform_newline"], "\n"):
+                        try:
+                            accept.add(simfs.expected_written_bytes(text, e_, nl_))
+                        except UnicodeError:
+                            pass
                 on_disk = disk.get(path) if path in disk.files else None
                 err = got[1] if got[0] == "raised" else close_exc
+                if enc_err is not None and err is None and "path" in tgt and on_disk in accept:
+                    enc_err = None          # written as UTF-8 although the locale cannot encode it: exact text, accepted
+                    expect = on_disk
                 if enc_err is not None:
                     if err is None or not isinstance(err, UnicodeError):
                         V("file-wrapper", "write_file/unencodable-accepted", step,
@@ -611,7 +624,7 @@ def execute(run, props):
                     res.event(step, label, "raised:OSError", "")
                     continue
                 # reported success: the bytes must be exact (also under short/eintr, also with a hard fault that fired)
-                if on_disk != expect:
+                if on_disk != expect and not ("path" in tgt and on_disk in accept):
                     soft = sorted({fk for _, fk in fired})
                     i = next((i for i in range(min(len(on_disk or b""), len(expect))) if (on_disk or b"")[i] != expect[i]), min(len(on_disk or b""), len(expect)))
                     what = "tail-of-previous-file-retained" if on_disk is not None and on_disk.startswith(expect) and len(on_disk) > len(expect) else \
